@@ -116,6 +116,9 @@ type rtrig struct {
 	dflt   fire
 	mu     sync.Mutex
 	calls  *[]call // per-step sink (single-threaded use)
+	// failFrom > 0: a wrapped library trigger fails from its failFrom-th call on with failCode (0: ErrTriggerExpired itself,
+	// wrappedExpired: the sentinel wrapped with %w, > 0: an unrelated error) -- a calendar that runs out / a source that fails
+	failFrom, failCode, ncalls int
 	log    *evlog  // free-running sink
 	key    string
 }
@@ -128,7 +131,11 @@ func (t *rtrig) NextFireTime(prev int64) (int64, error) {
 	t.mu.Lock()
 	var f fire
 	switch {
+	case t.inner != nil && t.failFrom > 0 && t.ncalls+1 >= t.failFrom:
+		t.ncalls++
+		f = fire{0, t.failCode}
 	case t.inner != nil:
+		t.ncalls++
 		v, err := t.inner.NextFireTime(prev)
 		switch {
 		case err == nil:
